@@ -408,6 +408,11 @@ def protocol_tables(ctx: Ctx):
             for s_ in value_alts(ctx.X.value_at(start, call.args[0])):
                 if s_[0] == "const" and isinstance(s_[1], str):
                     p2c_written.add(s_[1])
+                # a dict filled key by key: `answer = {"functions": f}; answer["gradients"] = g`
+                while s_[0] == "update":
+                    if s_[3][0] == "const" and isinstance(s_[3][1], str):
+                        p2c_written.add(s_[3][1])
+                    s_ = s_[1]
                 if s_[0] == "dict":
                     for k_, _v in s_[1]:
                         if k_[0] == "const" and isinstance(k_[1], str):
